@@ -87,6 +87,9 @@ func checkC13(p *Pipeline) int {
 	if exit == 0 {
 		n := tc.DetRuns / 4
 		p.timed("determinism_selftest", func() { det = p.detSelfTest(parent, "working-tree", params, m.Records, n, nil) })
+		if len(p.DetViolations) > 0 {
+			exit = p.handleViolations("C-gensim", "engc", parent, p.DetViolations, "working-tree", params, nil, tc.MinimiseS)
+		}
 	}
 	faults, probes := map[string]int64{}, map[string]int64{}
 	for k, v := range m.Stats {
